@@ -344,28 +344,30 @@ pub fn parse_and_bind<R: FsModuleResolver>(
         let renamed = unresolved.renamed;
         let js_word = unresolved.name.clone();
         let k = unresolved.name.to_string();
+        // an export list exports EVERY meaning the name has in this file: `type X = …; const X = …; export { X }`
+        // exports the type and the value, an enum is both a type and a value
+        let mut found = false;
         if let Some(ts_type) = locals.content.type_aliases.get(&k) {
             symbol_exports.insert_type(
                 renamed.to_string(),
                 Rc::new(SymbolExport::TsType {
                     decl: ts_type.clone(),
                     original_file: file_name.clone(),
-                    name: k,
+                    name: k.clone(),
                     span: ts_type.span,
                 }),
             );
-            continue;
+            found = true;
         }
 
         if let Some(enum_) = locals.content.enums.get(&k) {
-            symbol_exports.insert_type(
-                renamed.to_string(),
-                Rc::new(SymbolExport::TsEnumDecl {
-                    decl: enum_.clone(),
-                    original_file: file_name.clone(),
-                }),
-            );
-            continue;
+            let export = Rc::new(SymbolExport::TsEnumDecl {
+                decl: enum_.clone(),
+                original_file: file_name.clone(),
+            });
+            symbol_exports.insert_type(renamed.to_string(), export.clone());
+            symbol_exports.insert_value(renamed.to_string(), export);
+            found = true;
         }
 
         if let Some(intf) = locals.content.interfaces.get(&k) {
@@ -377,7 +379,7 @@ pub fn parse_and_bind<R: FsModuleResolver>(
                     span: intf.span,
                 }),
             );
-            continue;
+            found = true;
         }
 
         if let Some(v) = locals.content.exprs.get(&k) {
@@ -390,7 +392,7 @@ pub fn parse_and_bind<R: FsModuleResolver>(
                     original_file: file_name.clone(),
                 }),
             );
-            continue;
+            found = true;
         }
 
         if let Some(v) = locals.content.exprs_decls.get(&k) {
@@ -403,6 +405,10 @@ pub fn parse_and_bind<R: FsModuleResolver>(
                     original_file: file_name.clone(),
                 }),
             );
+            found = true;
+        }
+
+        if found {
             continue;
         }
 
